@@ -212,3 +212,58 @@ variant("arr-rand-commuted", "C12", ARRAY, """    def __rand__(self, other: Bool
         return _elementwise(Op.AND, self.shape, [self, other])""")
 variant("expr-is-bool-op-tuple", "C12", EXPR, "def is_int_op(op: Op) -> bool:\n    return op in [Op.INT_CONSTANT, Op.NEG, Op.ADD, Op.SUB, Op.IF]", "def is_int_op(op: Op) -> bool:\n    return op in (Op.IF, Op.INT_CONSTANT, Op.NEG, Op.ADD, Op.SUB)")
 variant("arr-is-int-like-inline", "C12", ARRAY, "return isinstance(value, (IntExpr, int, IntArray1D, IntArray2D)) and not isinstance(value, bool)", "return not isinstance(value, bool) and (isinstance(value, (IntExpr, IntArray1D, IntArray2D)) or isinstance(value, int))")
+
+# ---- C03 ---------------------------------------------------------------------------------------
+SUGAR = "cspuz/backend/sugar_like.py"
+JAVA = "sugar_extension/CspuzSugarInterface.java"
+GRAPH = "cspuz/graph.py"
+mutant("sgr-le-lt-swapped", "C03", SUGAR, '    Op.LE: "<=",\n    Op.LT: "<",', '    Op.LE: "<",\n    Op.LT: "<=",', "OPC-4")
+mutant("sgr-iff-eq", "C03", SUGAR, 'Op.IFF: "iff",', 'Op.IFF: "eq",', "OPC-4")
+mutant("sgr-if-missing", "C03", SUGAR, '    Op.IF: "if",\n', "", "OPC-4")
+mutant("sgr-decl-name", "C03", SUGAR, 'return "(bool b{})".format(v.id)', 'return "(bool v{})".format(v.id)', "SGR-1")
+mutant("sgr-int-name-collides", "C03", SUGAR, """    elif isinstance(e, IntVar):
+        return "i{}".format(e.id)
+    elif e.op == Op.BOOL_CONSTANT:""", """    elif isinstance(e, IntVar):
+        return "b{}".format(e.id)
+    elif e.op == Op.BOOL_CONSTANT:""", "SGR-1")
+mutant("sgr-domain-swapped", "C03", SUGAR, 'return "(int i{} {} {})".format(v.id, v.lo, v.hi)', 'return "(int i{} {} {})".format(v.id, v.hi, v.lo)', "SGR-1")
+mutant("sgr-operands-first-two", "C03", SUGAR, '" ".join(map(_convert_expr, e.operands))', '" ".join(map(_convert_expr, e.operands[:2]))', "OPC-4")
+mutant("sgr-unsat-marker", "C03", SUGAR, 'if "UNSATISFIABLE" in out[0]:', 'if "SATISFIABLE" in out[0]:', "SGR-3")
+mutant("sgr-answer-split-space", "C03", SUGAR, 'var, val = line[2:].strip().split("\\t")', 'var, val = line[2:].strip().split(" ")', "SGR-3")
+mutant("sgr-answer-prefix", "C03", SUGAR, 'var, val = line[2:].strip().split("\\t")', 'var, val = line[3:].strip().split("\\t")', "SGR-3")
+mutant("sgr-bool-as-int", "C03", SUGAR, """            var, val = line.split(" ")
+            if val == "true":
+                converted_val = True""", """            var, val = line.split(" ")
+            if val == "true":
+                converted_val = 1""", "SGR-3")
+mutant("sgr-keys-all", "C03", SUGAR, """        for i in range(len(self.variables)):
+            if is_answer_key[i]:
+                if isinstance(self.variables[i], BoolVar):""", """        for i in range(len(self.variables)):
+            if True:
+                if isinstance(self.variables[i], BoolVar):""", "SGR-4")
+mutant("sgr-key-sep", "C03", SUGAR, 'answer_keys_desc = "#" + " ".join(answer_keys)', 'answer_keys_desc = "#" + ",".join(answer_keys)', "SGR-4")
+mutant("sgr-desc-no-constraints", "C03", SUGAR, """        csp_description = "\\n".join(self.converted_variables + self.converted_constraints)
+        out = self._call_solver(csp_description).split("\\n")
+        if "UNSATISFIABLE" in out[0]:""", """        csp_description = "\\n".join(self.converted_variables)
+        out = self._call_solver(csp_description).split("\\n")
+        if "UNSATISFIABLE" in out[0]:""", "SGR-5")
+mutant("sgr-csugar-entry", "C03", SUGAR, """        import pycsugar  # type: ignore
+
+        return pycsugar.solver(csp_description)""", """        import cspuz_core  # type: ignore
+
+        return cspuz_core.solver(csp_description)""", "SGR-7")
+mutant("sgr-java-tab", "C03", JAVA, 'System.out.println("a " + name + "\\t" + csp.getIntegerVariable(name).getValue());', 'System.out.println("a " + name + " " + csp.getIntegerVariable(name).getValue());', "SGR-3")
+mutant("sgr-native-layout", "C03", GRAPH, """                [graph.num_vertices, len(graph)]
+                + [is_active[i] for i in range(len(is_active))]  # type: ignore""", """                [len(graph), graph.num_vertices]
+                + [is_active[i] for i in range(len(is_active))]  # type: ignore""", "SGR-6")
+mutant("sgr-native-guard", "C03", GRAPH, """        if len(is_active) != graph.num_vertices:
+            raise ValueError(
+                "is_active must have the same number of items as that of vertices in graph"
+            )
+""", "", "SGR-6")
+mutant("sgr-division-borders-first", "C03", GRAPH, """                + sum([[x, y] for x, y in graph.edges], [])  # type: ignore
+                + [is_border[i] for i in range(len(is_border))],  # type: ignore""", """                + [is_border[i] for i in range(len(is_border))]  # type: ignore
+                + sum([[x, y] for x, y in graph.edges], []),  # type: ignore""", "SGR-6")
+variant("sgr-fstring", "C03", SUGAR, 'return "(bool b{})".format(v.id)', 'return f"(bool b{v.id})"')
+variant("sgr-startswith", "C03", SUGAR, 'if "unsat" in out[0]:', 'if out[0].startswith("unsat"):')
+variant("sgr-table-reordered", "C03", SUGAR, '    Op.NEG: "-",\n    Op.ADD: "+",', '    Op.ADD: "+",\n    Op.NEG: "-",')
